@@ -47,23 +47,24 @@ type Runner struct {
 
 // Run is the state of one execution.
 type Run struct {
-	traceMu         sync.Mutex
-	Concurrent      bool   // some requests were sent concurrently: the recorded trace is not a serial order
-	Faulted         bool   // a storage fault fired inside some request: the protocol model (whole requests) does not replay it
-	WindowFault     bool   // ... between "pushed changes stored" and "client checkpoint stored" (finding P8)
-	Stale           []bool // client attached under an older epoch (a compaction happened since)
-	Compactions     int
-	SnapshotHeld    int // Kq steps in which a background snapshot was actually held across the compaction
-	ref             *RefReplica
-	cacheOnly       bool
-	Trace           []sim.CallRec
-	FirstNoPresence bool
-	H               *History
-	R               []*Replica
-	Out             *Outcome
-	DocKey          string
-	Project         *types.Project
-	S               *sim.Server
+	traceMu           sync.Mutex
+	Concurrent        bool   // some requests were sent concurrently: the recorded trace is not a serial order
+	Faulted           bool   // a storage fault fired inside some request: the protocol model (whole requests) does not replay it
+	WindowFault       bool   // ... between "pushed changes stored" and "client checkpoint stored" (finding P8)
+	Stale             []bool // client attached under an older epoch (a compaction happened since)
+	Compactions       int
+	SnapshotOvertaken int // Sh steps in which another client pushed while the snapshot job of a push was held at its start
+	SnapshotHeld      int // Kq steps in which a background snapshot was actually held across the compaction
+	ref               *RefReplica
+	cacheOnly         bool
+	Trace             []sim.CallRec
+	FirstNoPresence   bool
+	H                 *History
+	R                 []*Replica
+	Out               *Outcome
+	DocKey            string
+	Project           *types.Project
+	S                 *sim.Server
 }
 
 var errInjected = errors.New("injected updater failure")
@@ -608,6 +609,50 @@ func (r *Run) exec(ctx context.Context, idx int, st *Step) StepObs {
 	}
 	rp := r.R[st.C]
 	attached := rp.A != nil && rp.A.Attached
+	if st.Op == "Sh" {
+		// client C pushes; the snapshot job that push starts in the background is held at its
+		// first storage read; meanwhile the next client pushes as well; then the job goes on
+		other := (st.C + 1) % len(r.R)
+		rp2 := r.R[other]
+		if !attached || rp.Inflight != nil || rp.Lost != nil || rp.Parked != nil || r.Stale[st.C] {
+			obs.Skipped = true
+			return obs
+		}
+		r.S.Be.WaitBackgroundIdleForVerif()
+		fdb := r.S.InstallFaultDB()
+		reached, release := fdb.ParkAtFrom("FindDocInfoByRefKey", "packs.storeSnapshot")
+		if len(st.Edits) > 0 {
+			_, _ = safeUpdate(rp.A.Doc, st.Edits, "")
+		}
+		err := rp.A.Sync(ctx)
+		held := false
+		if err == nil {
+			select {
+			case <-reached:
+				held = true
+			case <-gotime.After(60 * gotime.Millisecond):
+			}
+		}
+		if held && other != st.C && rp2.A != nil && rp2.A.Attached && rp2.Inflight == nil && rp2.Lost == nil && rp2.Parked == nil && !r.Stale[other] {
+			r.SnapshotOvertaken++
+			if len(st.Edits) > 0 {
+				_, _ = safeUpdate(rp2.A.Doc, st.Edits, "")
+			}
+			if err2 := rp2.A.Sync(ctx); err2 != nil && err == nil {
+				err = err2
+			}
+		}
+		release()
+		r.S.Be.WaitBackgroundIdleForVerif()
+		if err != nil {
+			obs.Err = sim.ErrClass(err) + " | " + trunc(err.Error(), 160)
+		}
+		if rp.A != nil {
+			obs.Root = rp.A.Doc.Marshal()
+			obs.Clone = cloneMarshal(rp.A.Doc)
+		}
+		return obs
+	}
 	if st.Op == "Kq" {
 		// a forced compaction while the snapshot that the previous sync started in the background
 		// is still being stored: client C syncs, the snapshot (if one is due) is held right before
@@ -1055,7 +1100,7 @@ func (rn *Runner) RunFull(ctx context.Context, h *History) (*Run, *Outcome) {
 		// a rebuild refreshes the snapshot cache, so rebuilding after every step would hide a stale
 		// entry: in sparse mode only about one eligible step in five is followed by a rebuild
 		sparseOK := !rn.ServerDocSparse || (uint64(i)*2654435761+h.Seed*40503+uint64(len(h.Steps)))%5 == 0
-		if ref != nil && sparseOK && (st.Op == "S" || st.Op == "Sb" || st.Op == "Sp" || st.Op == "Sr" || st.Op == "A" || st.Op == "D" || st.Op == "K" || st.Op == "Kf" || st.Op == "Kq") && !o.Skipped {
+		if ref != nil && sparseOK && (st.Op == "S" || st.Op == "Sb" || st.Op == "Sp" || st.Op == "Sr" || st.Op == "A" || st.Op == "D" || st.Op == "K" || st.Op == "Kf" || st.Op == "Kq" || st.Op == "Sh") && !o.Skipped {
 			r.CheckServerDocNow(ctx, ref, i)
 		}
 		if rn.Hook != nil {
